@@ -488,6 +488,22 @@ func (cc *checkCtx) checkProperty(prop string, seed int, known []KnownFinding, b
 				continue
 			}
 		}
+		// the clause itself talks about calls to a function whose contract has lost its target
+		// (the function was renamed, removed or folded into its caller): the clause cannot be
+		// evaluated any more, which is a contract that has to follow, not a refutation
+		if mt := mentionsMissingTarget(p, rec); mt != nil {
+			undecided++
+			cc.printf("UNDECIDED property=%s obligation=%s (its clause refers to %s, whose contract at %s:%d has lost its target)\n", prop, rec.o.Name, mt.Target, mt.File, mt.Line)
+			continue
+		}
+		// every failing path went through code of the module that has no contract and could
+		// not be executed exactly (a loop without invariant, recursion): a missing contract,
+		// not a refutation
+		if why := weakOnly(rec.o); why != "" {
+			undecided++
+			cc.printf("UNDECIDED property=%s obligation=%s (needs a contract: %s)\n", prop, rec.o.Name, why)
+			continue
+		}
 		if rec.status == "undecided" && len(base) > 0 && !base[rec.o.Name] {
 			undecided++
 			cc.printf("UNDECIDED property=%s obligation=%s (no solver decided it and it is not in the baseline of discharged obligations)\n", prop, rec.o.Name)
@@ -555,6 +571,51 @@ func (cc *checkCtx) checkProperty(prop string, seed int, known []KnownFinding, b
 func neverReturns(u *Unit) bool {
 	// a function whose every path panics (none in scope) would be flagged; keep strict
 	return false
+}
+
+func mentionsMissingTarget(p *Prog, rec *obRecord) *MissingTarget {
+	isId := func(c byte) bool {
+		return c == '_' || c == '.' || c >= '0' && c <= '9' || c >= 'a' && c <= 'z' || c >= 'A' && c <= 'Z'
+	}
+	for _, mt := range p.MissingTargets {
+		if rec.u == nil || rec.u.Pkg == nil || mt.Pkg != rec.u.Pkg.Path() {
+			continue
+		}
+		cl := rec.o.Clause
+		for from := 0; ; {
+			i := strings.Index(cl[from:], mt.Target)
+			if i < 0 {
+				break
+			}
+			i += from
+			j := i + len(mt.Target)
+			if (i == 0 || !isId(cl[i-1])) && (j == len(cl) || !isId(cl[j])) {
+				return mt
+			}
+			from = j
+		}
+	}
+	return nil
+}
+
+// weakOnly: all undischarged failures of o lie on paths weakened by a missing contract.
+func weakOnly(o *Oblig) string {
+	why := ""
+	n := 0
+	for _, f := range o.Failures {
+		if f.Race != nil && f.Race.Result == "unsat" {
+			continue
+		}
+		n++
+		if len(f.Weak) == 0 {
+			return ""
+		}
+		why = strings.Join(f.Weak, "; ")
+	}
+	if n == 0 {
+		return ""
+	}
+	return why
 }
 
 func matchKnown(known []KnownFinding, prop, ob string) *KnownFinding {
